@@ -1,6 +1,16 @@
 mod c29;
+mod c32;
+mod c33;
+mod c34;
+mod c35;
 use vkit::{Check, Level};
 fn main() {
-    let checks: &[Check] = &[Check { id: "C29", level: Level::Exploration, run: c29::run }];
+    let checks: &[Check] = &[
+        Check { id: "C29", level: Level::Exploration, run: c29::run },
+        Check { id: "C32", level: Level::Exploration, run: c32::run },
+        Check { id: "C33", level: Level::Exploration, run: c33::run },
+        Check { id: "C34", level: Level::Exploration, run: c34::run },
+        Check { id: "C35", level: Level::Exploration, run: c35::run },
+    ];
     vkit::main(checks);
 }
